@@ -26,6 +26,8 @@ struct Stats {
     proof_bytes: u64,
     max_positions: usize,
     nonzero_remainder_only: u64,
+    /// failing cases by degree bound + 1
+    failed_by_n: BTreeMap<usize, u64>,
 }
 
 impl Stats {
@@ -44,6 +46,9 @@ impl Stats {
         self.proof_bytes += o.proof_bytes;
         self.max_positions = self.max_positions.max(o.max_positions);
         self.nonzero_remainder_only += o.nonzero_remainder_only;
+        for (k, v) in &o.failed_by_n {
+            *self.failed_by_n.entry(*k).or_insert(0) += v;
+        }
     }
 }
 
@@ -77,7 +82,13 @@ where
         st.naive_polys += 1;
     }
     let xs = if used_fft { coset::<B>(sh.domain) } else { vec![] };
+    let count = |s: &Sweep| s.viol.len() as u64 + s.more.iter().map(|(_, n)| *n).sum::<u64>();
+    let mut before = 0u64;
     for pos in &u.positions {
+        if count(&s) > before {
+            *st.failed_by_n.entry(cfg.n).or_insert(0) += 1;
+            before = count(&s);
+        }
         s.evals += 1;
         let key = format!("{}/{}/{}", cfg.key(), u.poly.key(), pos.key());
         let rp = replay_record(cfg, &u.poly, pos);
@@ -149,6 +160,9 @@ where
                 }
             },
         }
+    }
+    if count(&s) > before {
+        *st.failed_by_n.entry(cfg.n).or_insert(0) += 1;
     }
     (s, st)
 }
@@ -330,6 +344,7 @@ pub fn run(args: &Args) {
         "largest_position_multiset": total.max_positions,
         "polynomials_evaluated_naively": total.naive_polys, "polynomials_evaluated_by_fft_with_naive_values_at_queries": total.fft_polys,
         "proof_bytes_round_tripped": total.proof_bytes,
+        "failing_cases_by_degree_bound_plus_1": total.failed_by_n,
     }));
     report.sample(json!({"cfg": bases[0].to_json(), "poly": Poly::Mono(15).to_json(), "positions": [5, 37], "note": "5 and 37 share a coset after the first folding (64/2 = 32)", "oracle": "verify == Ok directly and after to_bytes/read_from"}));
     report.sample(json!({"cfg": bases[1].to_json(), "poly": Poly::AllMax(32).to_json(), "positions": [63, 63], "oracle": "verify == Ok"}));
